@@ -15,7 +15,9 @@ const (
 	fnInflDelete = "(*mqtt.Inflight).Delete"
 )
 
-func inflGetOK(t string) bool { return strings.HasPrefix(t, fnInflGet+"(") && strings.HasSuffix(t, "#1") }
+func inflGetOK(t string) bool {
+	return strings.HasPrefix(t, fnInflGet+"(") && strings.HasSuffix(t, "#1")
+}
 
 // ---- C08 -----------------------------------------------------------------------------------
 
@@ -148,15 +150,15 @@ func init() {
 
 func runC09(c *Ctx) {
 	roles := map[string]string{
-		"(*mqtt.Server).processPuback":         "ack-handler: PUBACK completes an outbound QoS 1 message",
-		"(*mqtt.Server).processPubrec":         "ack-handler: PUBREC with an error code ends the outbound flow",
-		"(*mqtt.Server).processPubrel":         "ack-handler: PUBREL completes an inbound QoS 2 exchange",
-		"(*mqtt.Server).processPubcomp":        "ack-handler: PUBCOMP completes an outbound QoS 2 message",
-		"(*mqtt.Server).processPublish":        "inbound marker of the client's own publish (QoS 1 completed at once; stale non-PUBREC record with the client's id)",
-		"(*mqtt.Client).ClearInflights":        "session ends / clean start",
-		"(*mqtt.Client).ClearExpiredInflights": "message expiry",
+		"(*mqtt.Server).processPuback":          "ack-handler: PUBACK completes an outbound QoS 1 message",
+		"(*mqtt.Server).processPubrec":          "ack-handler: PUBREC with an error code ends the outbound flow",
+		"(*mqtt.Server).processPubrel":          "ack-handler: PUBREL completes an inbound QoS 2 exchange",
+		"(*mqtt.Server).processPubcomp":         "ack-handler: PUBCOMP completes an outbound QoS 2 message",
+		"(*mqtt.Server).processPublish":         "inbound marker of the client's own publish (QoS 1 completed at once; stale non-PUBREC record with the client's id)",
+		"(*mqtt.Client).ClearInflights":         "session ends / clean start",
+		"(*mqtt.Client).ClearExpiredInflights":  "message expiry",
 		"(*mqtt.Client).ResendInflightMessages": "terminal acknowledgements (PUBACK/PUBCOMP) are dropped after being resent",
-		"(*mqtt.Server).publishToClient":       "rollback of an enqueue that failed (reported through OnPublishDropped)",
+		"(*mqtt.Server).publishToClient":        "rollback of an enqueue that failed (reported through OnPublishDropped)",
 	}
 	n := 0
 	for _, fn := range c.ModFns {
@@ -169,7 +171,9 @@ func runC09(c *Ctx) {
 			switch name {
 			case "(*mqtt.Client).ResendInflightMessages":
 				c.underFact("C09.a who-may-delete", name+": only PUBACK/PUBCOMP records are dropped after a resend", ci,
-					func(t string) bool { return strings.Contains(t, ".FixedHeader.Type == 4") || strings.Contains(t, ".FixedHeader.Type == 7") }, true, "")
+					func(t string) bool {
+						return strings.Contains(t, ".FixedHeader.Type == 4") || strings.Contains(t, ".FixedHeader.Type == 7")
+					}, true, "")
 				// must not be reachable for Publish/Pubrel: both type tests false ⇒ unreachable
 				c.noPath("C09.a who-may-delete", name+": a PUBLISH/PUBREL record is never dropped by a resend", fn, nil, isIns(ci), nil,
 					[]Assume{assumeHas(".FixedHeader.Type == 4", false), assumeHas(".FixedHeader.Type == 7", false)}, "")
@@ -181,6 +185,10 @@ func runC09(c *Ctx) {
 					}
 				}
 				c.ob("C09.a who-may-delete", name+": the rollback follows OnPublishDropped", c.pos(ci.Pos()), reported, "a message may be removed from the session by publishToClient only as the rollback of a reported drop")
+				// an offline session keeps its QoS>0 messages: the enqueue attempt (and with it the rollback) happens only for an open connection
+				open := dominatedByFact(ci, textEq("cl.Net.Conn == nil"), false) && dominatedByFact(ci, textEq("(*mqtt.Client).Closed(cl)"), false)
+				c.ob("C09.a who-may-delete", name+": the rollback is reachable only while the client's connection is open", c.pos(ci.Pos()), open,
+					"for an offline session nothing drains the queue: once it is full every further QoS>0 message would be rolled back out of the session instead of waiting for the reconnect")
 			}
 		}
 	}
@@ -272,7 +280,9 @@ func runC10(c *Ctx) {
 		if f == nil {
 			continue
 		}
-		typeTest := func(t string) bool { return strings.Contains(t, ".FixedHeader.Type") && (strings.Contains(t, " == ") || strings.Contains(t, " < ")) }
+		typeTest := func(t string) bool {
+			return strings.Contains(t, ".FixedHeader.Type") && (strings.Contains(t, " == ") || strings.Contains(t, " < "))
+		}
 		for _, ci := range c.callsNamed(f, fnInflDelete, fnInflSet) {
 			id := describe(ci.Common().Args[1])
 			isDel := cname(ci.Common()) == fnInflDelete
@@ -461,6 +471,42 @@ func runC11(c *Ctx) {
 	if f := c.fn("mqtt", "(*Server).processPubrel"); f != nil {
 		inc := c.call1(f, "(*mqtt.Inflight).IncreaseReceiveQuota")
 		c.ob("C11.b quota-pairing", "(*mqtt.Server).processPubrel: completing the inbound QoS 2 exchange returns the receive quota", c.pos(f.Pos()), inc != nil, "")
+	}
+	// a resumed session takes the messages over but its quotas come from the new connection's CONNECT
+	if f := c.fn("mqtt", "(*Inflight).Clone"); f != nil {
+		clean := true
+		for _, ins := range instrs(f) {
+			touch := ""
+			if st, ok := ins.(*ssa.Store); ok {
+				touch = describe(st.Addr)
+			}
+			if cc := callOf(ins); cc != nil && strings.HasPrefix(cname(cc), "sync/atomic.Store") {
+				touch = describe(cc.Args[0])
+			}
+			if strings.Contains(touch, "Quota") {
+				clean = false
+				c.ob("C11.b quota-pairing", "(*mqtt.Inflight).Clone copies "+touch, c.pos(ins.Pos()), false,
+					"inheritClientSession resets the clone's quotas from the new CONNECT only while they are still zero: a clone that carries the old connection's quotas keeps the old Receive Maximum")
+			}
+		}
+		if clean {
+			c.ob("C11.b quota-pairing", "(*mqtt.Inflight).Clone transfers the messages only (quota counters of the clone start at zero)", c.pos(f.Pos()), true, "")
+		}
+	}
+	if f := c.fn("mqtt", "(*Server).inheritClientSession"); f != nil {
+		clone := c.call1(f, "(*mqtt.Inflight).Clone")
+		rs := c.call1(f, "(*mqtt.Inflight).ResetSendQuota")
+		rr := c.call1(f, "(*mqtt.Inflight).ResetReceiveQuota")
+		c.ob("C11.b quota-pairing", "(*mqtt.Server).inheritClientSession resets the send quota of the taken-over in-flight store to the new connection's Receive Maximum", c.pos(f.Pos()),
+			clone != nil && rs != nil && reachableFrom(clone, rs) && describe(rs.Common().Args[1]) == "int32(cl.Properties.Props.ReceiveMaximum)", "")
+		c.ob("C11.b quota-pairing", "(*mqtt.Server).inheritClientSession resets the receive quota of the taken-over in-flight store to the server's Receive Maximum", c.pos(f.Pos()),
+			clone != nil && rr != nil && reachableFrom(clone, rr) && strings.Contains(describe(rr.Common().Args[1]), "Capabilities.ReceiveMaximum"), "")
+	}
+	if f := c.fn("mqtt", "(*Client).ParseConnect"); f != nil {
+		rs := c.call1(f, "(*mqtt.Inflight).ResetSendQuota")
+		c.ob("C11.b quota-pairing", "(*mqtt.Client).ParseConnect sets the send quota to the Receive Maximum the client declared", c.pos(f.Pos()), rs != nil && describe(rs.Common().Args[1]) == "int32(cl.Properties.Props.ReceiveMaximum)", "")
+		rr := c.call1(f, "(*mqtt.Inflight).ResetReceiveQuota")
+		c.ob("C11.b quota-pairing", "(*mqtt.Client).ParseConnect sets the receive quota to the server's Receive Maximum", c.pos(f.Pos()), rr != nil && strings.Contains(describe(rr.Common().Args[1]), "Capabilities.ReceiveMaximum"), "")
 	}
 	// quota primitives are saturating
 	for _, q := range []struct{ name, guard string }{
@@ -788,7 +834,9 @@ func runC34(c *Ctx) {
 		}
 		// the size limit precedes the closure
 		c.noPath("C34.b sent-means-written", "(*mqtt.Client).WritePacket: a packet above the client's Maximum Packet Size is never written", f, nil, isIns(closureCall), nil,
-			[]Assume{assumeEq("pk.Mods.MaxSize > 0", true), {Match: func(t string) bool { return strings.Contains(t, "(*bytes.Buffer).Len(") && strings.HasSuffix(t, "> pk.Mods.MaxSize") }, Truth: true}}, "[MQTT-3.1.2-24]")
+			[]Assume{assumeEq("pk.Mods.MaxSize > 0", true), {Match: func(t string) bool {
+				return strings.Contains(t, "(*bytes.Buffer).Len(") && strings.HasSuffix(t, "> pk.Mods.MaxSize")
+			}, Truth: true}}, "[MQTT-3.1.2-24]")
 		// inside the closure
 		lf := lockFlowOf(cl)
 		isConnWrite := func(x ssa.Instruction) bool {
